@@ -72,10 +72,19 @@ Definition op_manual_free (m : mem) (bytes : N) : mem := mkMem (heap m) (manual 
 (* sweep of one object: the CURRENT estimate is subtracted, saturating *)
 Definition op_sweep (m : mem) (current : N) : mem := mkMem (heap m - current) (manual m) (maxb m).
 
-Definition op_bytes (cap : N) (m : mem) (n : Z) : res * mem * list evt :=
+(* bytes.alloc(n): size validated, then -- when the natives charge byte buffers (Extracted BYTES_CHARGED: VM::charge_byte_buffer) --
+   the limit is consulted and the buffer charged to the manual counter before the host is asked; before that repair the
+   buffer was built without looking at the limit *)
+Definition op_bytes_gen (charged : bool) (cap : N) (m : mem) (n : Z) : res * mem * list evt :=
   if (n <=? 0)%Z then (RTypeErr, m, [])
   else if MAX_ALLOC <? Z.to_N n then (RTypeErr, m, [])
-  else if host_ok cap (Z.to_N n) then (ROk, m, [EHost (Z.to_N n)]) else (RAbort, m, [EHost (Z.to_N n)]).
+  else let b := Z.to_N n in
+       if charged then
+         (if ensure m b then
+            (if host_ok cap b then (ROk, add_manual m b, [ECheck b true; EHost b; ECharge b]) else (RAbort, m, [ECheck b true; EHost b]))
+          else (ROom, m, [ECheck b false]))
+       else if host_ok cap b then (ROk, m, [EHost b]) else (RAbort, m, [EHost b]).
+Definition op_bytes := op_bytes_gen BYTES_CHARGED.
 
 (* ---- primitives that were unguarded / late-checked before the repairs (KF-C10-1..5); now the size is
    validated and the limit consulted before any storage is built *)
